@@ -41,6 +41,7 @@ def env():
     TM = tlt.TenalgBackendManager
     stubs = {}
     funcs = frozenset(BM._functions)
+    attrs = frozenset(BM._attributes) - {"backend_name"}
     import threading
 
     executed = threading.local()  # per sim-thread: tags of the stub/instance backends whose dispatched methods ran
@@ -55,6 +56,8 @@ def env():
                 return v(*a, **k)
 
             return recorded
+        if name in attrs:  # a dispatched *attribute* (tl.float64, tl.pi, ...) served by this backend object
+            executed.__dict__.setdefault("tags", []).append(object.__getattribute__(self, "tag"))
         return v
 
     for nm in ("jax", "cupy", "pytorch"):
@@ -128,6 +131,12 @@ BE_PROBES = [
     lambda tl, A, B: tl.zeros((2,)),
     lambda tl, A, B: tl.copy(A),
     lambda tl, A, B: tl.abs(A),
+    # dispatched attributes (dynamically_dispatched_class_attribute on the manager module; the copies that
+    # `import tensorly as tl` binds at import time - tl.float64, tl.pi - are static values, not dispatch)
+    lambda tl, A, B: tl.backend.float64,
+    lambda tl, A, B: tl.backend.pi,
+    lambda tl, A, B: tl.backend.int32,
+    lambda tl, A, B: tl.backend.nan,
 ]
 TA_PROBES = [
     lambda ta, A, B: ta.kronecker([A, B]),
@@ -155,7 +164,7 @@ TA_FAILS = [
 
 
 def pick_probe(rng):
-    return 0 if rng.random() < 0.5 else rng.randrange(1, 12)
+    return 0 if rng.random() < 0.5 else rng.randrange(1, 16)
 
 
 class SimExc(Exception):
